@@ -115,6 +115,11 @@ def run(command, timeout=30, withexitstatus=False, events=None,
             index = child.expect(patterns)
             if isinstance(child.after, child.allowed_string_types):
                 child_result_list.append(child.before + child.after)
+            elif child.after is TIMEOUT:
+                # A TIMEOUT consumes nothing: child.before is still pending
+                # and will be reported by the next match or EOF. Appending
+                # it here as well would duplicate it in the result.
+                pass
             else:
                 # child.after may have been a TIMEOUT or EOF,
                 # which we don't want appended to the list.
@@ -128,6 +133,9 @@ def run(command, timeout=30, withexitstatus=False, events=None,
                 if isinstance(callback_result, child.allowed_string_types):
                     child.send(callback_result)
                 elif callback_result:
+                    if child.after is TIMEOUT:
+                        # stopping here: report what is still pending
+                        child_result_list.append(child.before)
                     break
             else:
                 raise TypeError("parameter `event' at index {index} must be "
